@@ -44,6 +44,13 @@ import (
 //          sleeps 500 ms) | <n> (answer with the first min(n, requested) entries; 0 = empty answer, scanner sleeps)
 //          — the j-th request whose `end` parameter is <end> gets the j-th token; afterwards full answers.
 //   sched  digits used only by the Lean interleaving model (its result must not depend on them)
+//
+//   c17 cap <start> <max> <tree> <batch> <nf> <nm> <opts> <pattern> <script> <sched>
+//          the same scan, but the log holds kind pattern[i % len(pattern)] at position i (big logs with a short
+//          line; used for the scans around the channel capacities of Scan: fetches 1000, jobs 100000)
+//   c17 seq <n> <10 scan fields> … (n times)
+//          n consecutive Scans on ONE *Scanner (options replaced through the hook Scanner.ZVSetOptions, the
+//          log swapped behind the same LogClient); output = the n scan outputs joined by `|`
 // ---------------------------------------------------------------------------------------------
 
 type Case struct {
@@ -100,6 +107,54 @@ func (c *Case) Stop() int64 {
 		return c.Tree
 	}
 	return c.Max
+}
+
+// MaxCapTree bounds the log size of a `cap` line (the kinds are expanded in memory).
+const MaxCapTree = 4 << 20
+
+// ParseCap parses the 10 fields of a `cap` line: like a scan line, field 7 is a pattern repeated over the tree.
+func ParseCap(f []string) (*Case, error) {
+	if len(f) != 10 {
+		return nil, fmt.Errorf("want 10 fields, got %d", len(f))
+	}
+	tree, err := strconv.ParseInt(f[2], 10, 64)
+	if err != nil || tree < 0 || tree > MaxCapTree {
+		return nil, errors.New("tree")
+	}
+	pat := f[7]
+	if pat == "-" || pat == "" {
+		if tree != 0 {
+			return nil, errors.New("empty pattern")
+		}
+		pat = "-"
+	}
+	g := append([]string(nil), f...)
+	if tree == 0 {
+		g[7] = "-"
+	} else {
+		g[7] = strings.Repeat(pat, int(tree)/len(pat)+1)[:tree]
+	}
+	return Parse(g)
+}
+
+// ParseSeq parses `<n> <10 fields>*n`.
+func ParseSeq(f []string) ([]*Case, error) {
+	if len(f) < 1 {
+		return nil, errors.New("seq: no count")
+	}
+	n, err := strconv.Atoi(f[0])
+	if err != nil || n < 1 || n > 16 || len(f) != 1+10*n {
+		return nil, errors.New("seq: field count")
+	}
+	var cs []*Case
+	for i := 0; i < n; i++ {
+		c, err := Parse(f[1+10*i : 11+10*i])
+		if err != nil {
+			return nil, err
+		}
+		cs = append(cs, c)
+	}
+	return cs, nil
 }
 
 // ---------------------------------------------------------------------------------------------
@@ -373,7 +428,10 @@ func (m *jitMatcher) j() {
 		runtime.Gosched()
 	}
 }
-func (m *jitMatcher) CertificateMatches(c *ctx509.Certificate) bool { m.j(); return m.inner.CertificateMatches(c) }
+func (m *jitMatcher) CertificateMatches(c *ctx509.Certificate) bool {
+	m.j()
+	return m.inner.CertificateMatches(c)
+}
 func (m *jitMatcher) PrecertificateMatches(p *ct.Precertificate) bool {
 	m.j()
 	return m.inner.PrecertificateMatches(p)
@@ -381,15 +439,20 @@ func (m *jitMatcher) PrecertificateMatches(p *ct.Precertificate) bool {
 
 var reMatch = regexp.MustCompile("zv-match")
 
-// Run executes scanner.Scan for the case. jitter != 0 adds Gosched/sleeps in the server and the matcher;
-// mutexFree = true records callbacks through a buffered channel only (no lock shared between matcher
-// goroutines, so that the harness adds no happens-before edges that could hide a race).
-func Run(c *Case, jitter uint64, timeout time.Duration) *Result {
-	srv := &server{c: c, seen: map[int64]int{}, served: map[int64]int{}, jitter: jitter}
-	lc := client.ZVNewWithRoundTripper("http://zv.invalid/log", srv)
-	lg := logrus.New()
-	lg.SetOutput(io.Discard)
-	lg.SetLevel(logrus.PanicLevel)
+// swapRT lets one LogClient (hence one Scanner) talk to a different scripted log in every scan of a sequence.
+type swapRT struct{ cur atomic.Pointer[server] }
+
+func (s *swapRT) RoundTrip(req *http.Request) (*http.Response, error) {
+	return s.cur.Load().RoundTrip(req)
+}
+
+// SameOpts: do two cases configure the Scanner identically (everything but the log, its script and the schedule)?
+func SameOpts(a, b *Case) bool {
+	return a.Start == b.Start && a.Max == b.Max && a.Batch == b.Batch && a.NF == b.NF && a.NM == b.NM &&
+		a.PrecertOnly == b.PrecertOnly && a.Ignore == b.Ignore && a.Matcher == b.Matcher
+}
+
+func optsOf(c *Case, jitter uint64) scanner.ScannerOptions {
 	var m scanner.Matcher
 	switch c.Matcher {
 	case 'a':
@@ -402,11 +465,54 @@ func Run(c *Case, jitter uint64, timeout time.Duration) *Result {
 	if jitter != 0 {
 		m = &jitMatcher{inner: m, jitter: jitter}
 	}
-	opts := scanner.ScannerOptions{
+	return scanner.ScannerOptions{
 		Matcher: m, PrecertOnly: c.PrecertOnly, BatchSize: c.Batch, NumWorkers: c.NM, ParallelFetch: c.NF,
 		StartIndex: c.Start, Quiet: true, Name: "zv", MaximumIndex: c.Max, IgnoreParsingErrors: c.Ignore,
 	}
-	sc := scanner.NewScanner(lc, opts, lg)
+}
+
+// Run executes scanner.Scan for the case on a fresh Scanner. jitter != 0 adds Gosched/sleeps in the server and
+// the matcher. Callbacks are recorded through a buffered channel only (no lock shared between matcher
+// goroutines, so that the harness adds no happens-before edges that could hide a race).
+func Run(c *Case, jitter uint64, timeout time.Duration) *Result {
+	return RunSeq([]*Case{c}, jitter, timeout)[0]
+}
+
+// RunSeq executes one Scan per case, all on the SAME *Scanner value (and the same LogClient): the first with
+// the options given to NewScanner, the later ones after Scanner.ZVSetOptions. Every scan gets its own
+// scripted log, callbacks and Result; `timeout` is per scan. After a scan that did not return the remaining
+// ones are not started (their Result has TimedOut set as well).
+func RunSeq(cs []*Case, jitter uint64, timeout time.Duration) []*Result {
+	poolOnce.Do(initPool)
+	rt := &swapRT{}
+	lc := client.ZVNewWithRoundTripper("http://zv.invalid/log", rt)
+	lg := logrus.New()
+	lg.SetOutput(io.Discard)
+	lg.SetLevel(logrus.PanicLevel)
+	var sc *scanner.Scanner
+	out := make([]*Result, len(cs))
+	for i, c := range cs {
+		srv := &server{c: c, seen: map[int64]int{}, served: map[int64]int{}, jitter: jitter}
+		rt.cur.Store(srv)
+		if sc == nil {
+			sc = scanner.NewScanner(lc, optsOf(c, jitter), lg)
+		} else if !SameOpts(cs[i-1], c) {
+			// with identical options the Scanner is reused exactly as the public API allows (nothing is written
+			// between the scans); otherwise the options are replaced through the verification hook
+			sc.ZVSetOptions(optsOf(c, jitter))
+		}
+		out[i] = runOne(sc, c, srv, timeout)
+		if out[i].TimedOut {
+			for j := i + 1; j < len(cs); j++ {
+				out[j] = &Result{TimedOut: true}
+			}
+			break
+		}
+	}
+	return out
+}
+
+func runOne(sc *scanner.Scanner, c *Case, srv *server, timeout time.Duration) *Result {
 	capN := int(c.Tree)*2 + 16
 	cbs := make(chan Callback, capN)
 	mk := func(pre bool) func(*ct.LogEntry, string) {
@@ -435,11 +541,12 @@ func Run(c *Case, jitter uint64, timeout time.Duration) *Result {
 		defer close(done)
 		res.Ret, res.Err = sc.Scan(mk(false), mk(true), updater)
 	}()
+	tm := time.NewTimer(timeout)
+	defer tm.Stop()
 	select {
 	case <-done:
-	case <-time.After(timeout):
-		res.TimedOut = true
-		return res
+	case <-tm.C:
+		return &Result{TimedOut: true} // `res` still belongs to the stuck goroutine
 	}
 	a, b, cc, d := sc.ZVCounters()
 	res.Cnt = [4]int64{a, b, cc, d}
@@ -464,6 +571,30 @@ func Run(c *Case, jitter uint64, timeout time.Duration) *Result {
 	res.Bad = srv.bad
 	srv.mu.Unlock()
 	return res
+}
+
+// CanonSeq joins the canonical outputs of the scans of a sequence.
+func CanonSeq(rs []*Result) string {
+	var parts []string
+	for _, r := range rs {
+		parts = append(parts, r.Canon())
+	}
+	return strings.Join(parts, "|")
+}
+
+// OracleSeq evaluates the property on every scan of a sequence on one Scanner: each scan is held against the
+// expectation of a SINGLE scan of its own case (return value = its own start + its own processed count, counters
+// and callbacks exactly its own range) — nothing of an earlier scan may show. Empty = holds.
+func OracleSeq(cs []*Case, rs []*Result) string {
+	for i, c := range cs {
+		if v := Oracle(c, rs[i]); v != "" {
+			if len(cs) == 1 {
+				return v
+			}
+			return fmt.Sprintf("scan %d of %d on the same Scanner (start %d, stop %d, batch %d): %s", i+1, len(cs), c.Start, c.Stop(), c.Batch, v)
+		}
+	}
+	return ""
 }
 
 // Canon is the canonical observable output compared with the Lean model.
